@@ -257,6 +257,11 @@ func runSortCase(c sortCase) *core.Failure {
 		}
 		return nil
 	}
+	// a Sort that FAILS directly before (another key, descending, and then an unknown column): whatever the failed call
+	// leaves behind must not reach the next one
+	if bad := qf.Sort(qframe.Order{Column: "id", Reverse: true}, qframe.Order{Column: "~no such column~"}); bad.Err == nil {
+		return core.Failf("Sort with an unknown last key column reported no error")
+	}
 	sorted := qf.Sort(toOrders(c.Orders)...)
 	out := model.Observe(sorted)
 	out.AdoptMeta(c.Frame)
@@ -294,6 +299,9 @@ func (s seamComparable) Compare(i, j uint32) seam.CompareResult {
 func (s seamComparable) Hash(i uint32, seed uint64) uint64 { return 0 }
 
 func runSortSeam(c sortCase) *core.Failure {
+	if !seam.SortAvailable || !seam.CoreAvailable {
+		return nil // the internal sort API changed: seam layers are skipped (noted in the evidence)
+	}
 	col := c.Frame.Cols[0]
 	data := make([]int, len(col.Cells))
 	for i, x := range col.Cells {
@@ -381,6 +389,11 @@ func c03OrderLists() [][]ordSpec {
 			}
 		}
 	}
+	// three keys, the typed (nullable) key in the middle, a unique last key: rows tied on the first key and both
+	// null in the second must still be ordered by the third
+	for _, f := range flags {
+		out = append(out, []ordSpec{{"k2", false, false}, {"k", f.r, f.n}, {"id", true, false}})
+	}
 	return out
 }
 
@@ -396,6 +409,9 @@ func intFrame(vals []int) model.Frame {
 }
 
 func c03Run(ctx *core.Ctx) {
+	if !seam.SortAvailable || !seam.CoreAvailable {
+		ctx.Note("the seam into internal/sort does not compile against this tree (its internal API changed): the seam layers (L3, adversary) are skipped, the public-API layers run")
+	}
 	exec := func(c sortCase, nontrivial bool) {
 		ctx.Exec(c, func() *core.Failure { return runSortCase(c) })
 		if nontrivial {
@@ -689,6 +705,14 @@ func (a *advComparable) Compare(i, j uint32) seam.CompareResult {
 func (a *advComparable) Hash(i uint32, seed uint64) uint64 { return 0 }
 
 func antiQuicksort(n int) []int {
+	if !seam.SortAvailable || !seam.CoreAvailable {
+		// without the seam the adversary cannot be run: an already sorted input instead
+		out := make([]int, n)
+		for i := range out {
+			out[i] = i
+		}
+		return out
+	}
 	a := &advComparable{val: make([]int, n), gas: n - 1}
 	for i := range a.val {
 		a.val[i] = a.gas
@@ -706,7 +730,7 @@ func init() {
 		ID:    "C03",
 		Level: "model_checking",
 		Rule: "case = (frame cells, index shape, order list[, seam entry]) enumerated exhaustively per layer " +
-			"(L1: all frames n<=N over per-type alphabets of 3-5 values + null (int extremes of opposite sign, strings that are prefixes of each other, -0 and +0) x {0,1} second key x all 40 order lists over two columns + 12 lists naming a column twice with other flags x 8 index shapes; " +
+			"(L1: all frames n<=N over per-type alphabets of 3-5 values + null (int extremes of opposite sign, strings that are prefixes of each other, -0 and +0) x {0,1} second key x all 40 order lists over two columns + 12 lists naming a column twice with other flags + 4 three-key lists with the nullable key in the middle x 8 index shapes; " +
 			"L2: all int sequences over {0,1} and {0,1,2} up to the stated lengths (all 8 index shapes for lengths 11..15, one rotating shape otherwise), ninther-size base patterns on all shapes in both directions with all <=2 point deviations; " +
 			"L5: generated frames of 100..10001 rows (int keys) and enum keys with 127..255 declared values on 6 and card+40 rows; L4: Sort, then overwrite the key (Apply k := -k / Copy k <- id) or filter, then the same Sort again, on all sequences over {0,1,2} up to 6 rows and {0,1} for 13..15 rows; " +
 			"L3: real quickSort/heapSort entered through the seam on all small sequences/permutations and sub-ranges, plus adversarial inputs). " +
